@@ -273,15 +273,15 @@ theorem mul_large_dword_exact (W : Nat) (buffer : List Nat) (rhs : Nat) (hw : Is
     (mulLargeDword W buffer rhs).Canon W :=
   mulLargeDword_spec W buffer rhs hw hr
 
-/-- **UBig × UBig** over the model: exact and canonical in every arm.  The inline×inline and
-    heap×inline arms are refined down to the word loops; the heap×heap arm is refined where the model
-    mirrors the kernel and is the specification itself where it is still at the frontier (see
-    `FRONTIER` in vlib/props/c01.py). -/
+/-- **UBig × UBig** over the model: exact and canonical in every arm.  Inline×inline, heap×inline and
+    heap×heap (schoolbook, chunk splitting, Karatsuba, the squaring shortcut) are refined down to the word
+    loops; only `toom_3::add_signed_mul_same_len` (both operands longer than 192 words) is still the
+    frontier kernel inside the mirrored dispatcher (see `FRONTIER` in vlib/props/c01.py). -/
 theorem u_mul_exact (W : Nat) (hW : 3 ≤ W) (a b : TRepr) (ha : a.Canon W) (hb : b.Canon W) :
     (a.mul W b).value W = a.value W * b.value W ∧ (a.mul W b).Canon W :=
   TRepr.mul_spec W hW a b ha hb
 
-theorem u_sqr_exact (W : Nat) (hW : 1 ≤ W) (a : TRepr) (ha : a.Canon W) :
+theorem u_sqr_exact (W : Nat) (hW : 3 ≤ W) (a : TRepr) (ha : a.Canon W) :
     (a.sqr W).value W = a.value W * a.value W ∧ (a.sqr W).Canon W :=
   TRepr.sqr_spec W hW a ha
 
@@ -293,7 +293,7 @@ theorem i_mul_exact (W : Nat) (hW : 3 ≤ W) (a b : SRepr) (ha : a.WF W) (hb : b
 /-- `cubic = a · a²` as the driver evaluates it -/
 theorem u_cubic_exact (W : Nat) (hW : 3 ≤ W) (a : TRepr) (ha : a.Canon W) :
     (a.mul W (a.sqr W)).value W = a.value W * a.value W * a.value W := by
-  have hs := TRepr.sqr_spec W (by omega) a ha
+  have hs := TRepr.sqr_spec W hW a ha
   rw [(TRepr.mul_spec W hW a _ ha hs.2).1, hs.1, Nat.mul_assoc]
 
 -- ====================================================================== × : schoolbook kernels
@@ -437,6 +437,45 @@ theorem mul_large_exact (W : Nat) (hW : 3 ≤ W) (lhs rhs : List Nat) (hl : IsWo
 example : (addSignedMulSameLen 64 25 (List.replicate 50 0) false (List.replicate 25 (2^64-1))
     (List.replicate 25 (2^64-1))).2 = 0 := by decide +kernel
 
+-- ====================================================================== squaring
+
+/-- `sqr::simple::square` on a zero-filled buffer (triangular part with the carry bit `c0`, diagonal part fused
+    with the doubling and the two overflow bits `c1`, `c2`, final `b.last += c0 + c1 + c2` which adds zero) -/
+theorem sqr_simple_exact (W : Nat) (a : List Nat) (ha : IsWords W a) (hne : a ≠ []) :
+    val W (sqrSimple W a) = val W a * val W a ∧ (sqrSimple W a).length = 2 * a.length ∧
+    IsWords W (sqrSimple W a) :=
+  sqrSimple_spec W a ha hne
+
+/-- the two loops of `sqr::simple::square` separately -/
+theorem sqr_tri_loop_exact (W : Nat) (aCur s : List Nat) (c0 : Nat) (hl : s.length = 2 * aCur.length)
+    (hs : IsWords W s) (ha : IsWords W aCur) (hc : c0 ≤ 1) :
+    Upd W s (sqrTriLoop W s aCur c0).1 ((sqrTriLoop W s aCur c0).2 : Int)
+      ((tri W aCur : Int) + (2 : Int) ^ (W * aCur.length) * c0) ∧ (sqrTriLoop W s aCur c0).2 ≤ 1 :=
+  sqrTriLoop_spec W aCur s c0 hl hs ha hc
+
+theorem sqr_diag_loop_exact (W : Nat) (a s : List Nat) (c1 c2 : Nat) (hl : s.length = 2 * a.length)
+    (hs : IsWords W s) (ha : IsWords W a) (h1 : c1 ≤ 1) (h2 : c2 ≤ 1) :
+    val W (sqrDiagLoop W s a c1 c2).1
+        + 2 ^ (W * s.length) * ((sqrDiagLoop W s a c1 c2).2.1 + (sqrDiagLoop W s a c1 c2).2.2)
+      = 2 * val W s + diag W a + c1 + c2 ∧
+    (sqrDiagLoop W s a c1 c2).1.length = s.length ∧ IsWords W (sqrDiagLoop W s a c1 c2).1 ∧
+    (sqrDiagLoop W s a c1 c2).2.1 ≤ 1 ∧ (sqrDiagLoop W s a c1 c2).2.2 ≤ 1 :=
+  sqrDiagLoop_spec W a s c1 c2 hl hs ha h1 h2
+
+/-- `a² = 2·tri(a) + diag(a)` — the identity behind the fused loop -/
+theorem sqr_identity (W : Nat) (a : List Nat) : val W a * val W a = 2 * tri W a + diag W a :=
+  sq_eq_tri_diag W a
+
+/-- `sqr::sqr` (simple up to `MAX_LEN_SIMPLE`, otherwise `mul::add_signed_mul_same_len(b, +, a, a)`) and
+    `square_large` -/
+theorem sqr_exact (W : Nat) (hW : 3 ≤ W) (a : List Nat) (ha : IsWords W a) (hne : a ≠ []) :
+    val W (sqrBuffer W a) = val W a * val W a ∧ IsWords W (sqrBuffer W a) :=
+  sqrBuffer_spec W hW a ha hne
+
+theorem square_large_exact (W : Nat) (hW : 3 ≤ W) (ws : List Nat) (hw : IsWords W ws) (hne : ws ≠ []) :
+    (squareLarge W ws).value W = val W ws * val W ws ∧ (squareLarge W ws).Canon W :=
+  squareLarge_spec W hW ws hw hne
+
 -- ====================================================================== pow
 
 /-- `math::max_exp_in_word(base)` (`base > 2`): returns `(k, base^k)` with `k ≥ 1` and `base^k` a word, so
@@ -479,8 +518,7 @@ theorem trailing_zeros_exact (n : Nat) : n / 2 ^ trailingZeros n * 2 ^ trailingZ
   trailingZeros_spec n
 
 /-- **UBig::pow** over the model (factor-2 removal, then `TypedReprRef::pow`, then shift back): `base^exp`,
-    canonical, for every exponent.  The real code computes `exp * shift` in `usize`; it follows this model
-    exactly when that product fits (`u_pow_checked_exact`). -/
+    canonical, for every exponent (`usize` arithmetic of `exp * shift`: see `u_pow_checked_exact`). -/
 theorem u_pow_exact (W : Nat) (hW : 3 ≤ W) (a : TRepr) (exp : Nat) (ha : a.Canon W) :
     (ubigPow W a exp).value W = a.value W ^ exp ∧ (ubigPow W a exp).Canon W :=
   ubigPow_spec W hW a exp ha
@@ -495,12 +533,11 @@ theorem i_pow_sign (W : Nat) (hW : 3 ≤ W) (a : SRepr) (exp : Nat) (ha : a.WF W
     (ibigPow W a exp).value W < 0 ↔ (a.value W < 0 ∧ exp % 2 = 1) :=
   ibigPow_neg_iff W hW a exp ha
 
-/-- what the property requires of `UBig::pow` with a `usize` exponent, as the driver evaluates it: the
-    exact power, except that when `exp * shift ≥ 2^64` the result has more than `2^64` bits (second clause)
-    and the documented allocation panic is required.
-    `u_pow_full` (the real code does this for *every* input) does NOT hold on the pinned tree: on the
-    `powShiftOverflows` class the code overflows `exp * shift` instead (witness below; finding
-    corpus/C01/pow_shift_overflow.case, proposed_fixes/c01-pow-shift-overflow.diff). -/
+/-- **`UBig::pow` with its `usize` exponent** (`exp.checked_mul(shift)`), as the driver evaluates it: the
+    exact power and a canonical result, except that when `exp * shift ≥ 2^64` the result has more than
+    `2^64` bits (second clause) and the documented allocation panic is raised.  This is the full statement:
+    since `fix: 099d251` the code checks the product (before, it overflowed on exactly the
+    `powShiftOverflows` class — witness `corpus/C01/pow_shift_overflow.case`). -/
 theorem u_pow_checked_exact (W : Nat) (hW : 3 ≤ W) (a : TRepr) (exp : Nat) (ha : a.Canon W) :
     (powShiftOverflows (a.value W) exp = false →
       ∃ r, ubigPowChecked W a exp = .ok r ∧ r.value W = a.value W ^ exp ∧ r.Canon W) ∧
@@ -512,7 +549,7 @@ theorem u_pow_checked_exact (W : Nat) (hW : 3 ≤ W) (a : TRepr) (exp : Nat) (ha
   · intro h
     exact ⟨by simp [ubigPowChecked, h], powShiftOverflows_huge _ _ h⟩
 
-/-- the excluded class is not empty: `4.pow(2^63)` -/
+/-- the panic class is not empty: `4.pow(2^63)` -/
 theorem pow_shift_overflow_witness : powShiftOverflows 4 (2 ^ 63) = true := powShiftOverflows_witness
 
 -- non-vacuity: canonical heap operands exist, reach the borrow/shrink and sign paths
